@@ -1,10 +1,23 @@
-//! exploration stub (replaced below)
+//! C18 — input is consumed line by line, no further than the running command needs.
+//!
+//! Case line: `<feed> <hex data> <hex unit> <hex unit> …`; the script is the concatenation of the
+//! units, every unit a self-contained group of whole lines (command lines plus the data lines its
+//! commands consume).  Feeds: `str` (`sh -c script`, standard input = data), `file` (`sh -s`, the
+//! script is the regular file /dev/stdin), `pipe:<pause>:<n1>,<n2>,…` (`sh -s`, standard input is a
+//! pipe into which a writer process writes the script in chunks of n1, n2, … bytes (cyclic), sleeping
+//! `pause` virtual milliseconds before each chunk so that the shell blocks in the middle of lines).
+//!
+//! Observation: `trace=<item|…> status=<n> err=<0/1> echo=<hex>`: the items are the lines of
+//! standard output (`<$?>:<hex fields>@<offset of standard input>` for the probe built-in, `L<hex>`
+//! otherwise), the final exit status, whether a syntax error was reported, and what `set -v` echoed.
+//!
+//! Oracle (no model involved): same observation as the `file` feed whatever the chunking (and for
+//! `str` when nothing reads standard input); for every unit boundary the run of the prefix is a
+//! prefix of the run of the whole (earlier lines take effect whatever follows, including a syntax
+//! error); `read` received exactly the next line; every offset a command sees is a line start.
 use std::cell::{Cell, RefCell};
-use std::future::Future;
 use std::io::SeekFrom;
-use std::pin::Pin;
 use std::rc::Rc;
-use std::task::{Context, Poll};
 use std::time::{Duration, Instant};
 use yash_env::system::concurrency::Sleep as _;
 use yash_env::builtin::{Builtin, Type};
@@ -14,7 +27,8 @@ use yash_env::semantics::{ExitStatus, Field};
 use yash_env::system::concurrency::WriteAll as _;
 use yash_env::system::r#virtual::{FileBody, Process, SystemState, VirtualSystem};
 use yash_env::system::{Close as _, Concurrent, Pipe as _};
-use yverif::proto::enc_str;
+use yverif::proto::{Opts, dec_bytes, emit, enc_bytes, enc_str, guarded, quiet_panics};
+use yverif::rng::Rng;
 use yverif::shell::{BuiltinFuture, Config, Outcome, SourceKind, VEnv, run_with};
 
 #[derive(Clone, Debug)]
@@ -26,20 +40,6 @@ enum Feed {
     /// `sh -s` with stdin a pipe written in chunks of the given sizes (cyclic), with that many
     /// executor yields between chunks
     Pipe(Vec<usize>, usize),
-}
-
-struct YieldNow(bool);
-impl Future for YieldNow {
-    type Output = ();
-    fn poll(mut self: Pin<&mut Self>, cx: &mut Context<'_>) -> Poll<()> {
-        if self.0 {
-            Poll::Ready(())
-        } else {
-            self.0 = true;
-            cx.waker().wake_by_ref();
-            Poll::Pending
-        }
-    }
 }
 
 thread_local! {
@@ -104,6 +104,9 @@ fn run_feed(script: &[u8], data: &[u8], feed: &Feed) -> Outcome {
         move |env, state| {
             STATE.with(|s| *s.borrow_mut() = Some(Rc::clone(state)));
             env.builtins.insert("probe", Builtin::new(Type::Mandatory, probe_main));
+            env.builtins.insert("a1", Builtin::new(Type::Mandatory, a1_main));
+            env.builtins.insert("a2", Builtin::new(Type::Mandatory, a2_main));
+            env.builtins.insert("a3", Builtin::new(Type::Mandatory, a3_main));
             match feed {
                 Feed::Str => {
                     // standard input of a `-c` shell: a regular file holding `data`
@@ -167,20 +170,763 @@ fn run_feed(script: &[u8], data: &[u8], feed: &Feed) -> Outcome {
     o
 }
 
+/// built-ins named like the aliases the scripts define: `a1` behaves as `probe @a1`
+fn alias_name_main(name: &'static str) -> impl Fn(&mut VEnv, Vec<Field>) -> BuiltinFuture<'_> {
+    move |env, _args| {
+        let st = env.exit_status.0;
+        let off = stdin_offset(env);
+        Box::pin(async move {
+            let text = format!("{}:{}@{}\n", st, enc_str(&format!("@{name}")), off);
+            match env.system.write_all(Fd::STDOUT, text.as_bytes()).await {
+                Ok(_) => ExitStatus(st).into(),
+                Err(_) => ExitStatus::FAILURE.into(),
+            }
+        })
+    }
+}
+fn a1_main(env: &mut VEnv, args: Vec<Field>) -> BuiltinFuture<'_> {
+    alias_name_main("a1")(env, args)
+}
+fn a2_main(env: &mut VEnv, args: Vec<Field>) -> BuiltinFuture<'_> {
+    alias_name_main("a2")(env, args)
+}
+fn a3_main(env: &mut VEnv, args: Vec<Field>) -> BuiltinFuture<'_> {
+    alias_name_main("a3")(env, args)
+}
+
+// ---------------------------------------------------------------------------------------------
+// cases
+
+#[derive(Clone, Debug)]
+struct Case {
+    feed: Feed,
+    feed_text: String,
+    data: Vec<u8>,
+    units: Vec<Vec<u8>>,
+}
+
+fn parse_feed(t: &str) -> Option<Feed> {
+    match t {
+        "str" => Some(Feed::Str),
+        "file" => Some(Feed::File),
+        _ => {
+            let mut it = t.split(':');
+            if it.next()? != "pipe" {
+                return None;
+            }
+            let pause: usize = it.next()?.parse().ok()?;
+            let sizes: Option<Vec<usize>> = it.next()?.split(',').map(|x| x.parse().ok()).collect();
+            let sizes = sizes?;
+            if sizes.is_empty() || sizes.iter().any(|&n| n == 0) {
+                return None;
+            }
+            Some(Feed::Pipe(sizes, pause))
+        }
+    }
+}
+
+fn parse_case(line: &str) -> Option<Case> {
+    let mut it = line.split(' ').filter(|t| !t.is_empty());
+    let feed_text = it.next()?.to_string();
+    let feed = parse_feed(&feed_text)?;
+    let data = dec_bytes(it.next()?)?;
+    let units: Option<Vec<Vec<u8>>> = it.map(dec_bytes).collect();
+    Some(Case { feed, feed_text, data, units: units? })
+}
+
+fn case_text(feed: &str, data: &[u8], units: &[Vec<u8>]) -> String {
+    let mut s = format!("{feed} {}", enc_bytes(data));
+    for u in units {
+        s.push(' ');
+        s.push_str(&enc_bytes(u));
+    }
+    s
+}
+
+#[derive(Clone, Debug, PartialEq)]
+struct Obs {
+    items: Vec<String>,
+    status: i32,
+    err: bool,
+    echo: Vec<u8>,
+    stuck: bool,
+}
+
+fn is_probe_line(l: &str) -> bool {
+    let Some((st, rest)) = l.split_once(':') else { return false };
+    let Some((fields, off)) = rest.rsplit_once('@') else { return false };
+    !st.is_empty()
+        && st.bytes().all(|b| b.is_ascii_digit())
+        && !off.is_empty()
+        && off.bytes().all(|b| b.is_ascii_digit())
+        && fields.bytes().all(|b| b.is_ascii_hexdigit() || b == b',' || b == b'-')
+}
+
+fn observe(script: &[u8], data: &[u8], feed: &Feed) -> Obs {
+    let o = run_feed(script, data, feed);
+    let out = o.stdout.clone();
+    let mut items = vec![];
+    let mut lines: Vec<&[u8]> = out.split(|&b| b == b'\n').collect();
+    if lines.last().map(|l| l.is_empty()).unwrap_or(false) {
+        lines.pop();
+    }
+    for l in lines {
+        let text = String::from_utf8_lossy(l);
+        if is_probe_line(&text) {
+            items.push(text.into_owned());
+        } else {
+            items.push(format!("L{}", enc_bytes(l)));
+        }
+    }
+    // standard error = what `set -v` echoed, then (at most) the report of a syntax error
+    let err_text = o.stderr.clone();
+    // (script lines never contain the text `error:`; the last echoed line may lack its newline).
+    // A data line run as a command under `sh -c` is reported as `error: cannot execute …`: that is
+    // not a syntax error.
+    let hits: Vec<usize> = (0..err_text.len().saturating_sub(5))
+        .filter(|&p| err_text[p..].starts_with(b"error:"))
+        .collect();
+    let cut = hits.first().copied().unwrap_or(err_text.len());
+    let err = hits.iter().any(|&p| !err_text[p..].starts_with(b"error: cannot execute"));
+    Obs { items, status: o.exit_status, err, echo: err_text[..cut].to_vec(), stuck: o.stuck }
+}
+
+fn show(o: &Obs) -> String {
+    if o.stuck {
+        return "TIMEOUT".into();
+    }
+    format!(
+        "trace={} status={} err={} echo={}",
+        o.items.join("|"),
+        o.status,
+        o.err as u8,
+        enc_bytes(&o.echo)
+    )
+}
+
+fn strip_offset(item: &str) -> String {
+    if is_probe_line(item) {
+        item.rsplit_once('@').unwrap().0.to_string()
+    } else {
+        item.to_string()
+    }
+}
+
+/// does anything in the script read standard input (other than a here-document)?
+fn reads_stdin(script: &[u8]) -> bool {
+    let text = String::from_utf8_lossy(script);
+    for line in text.lines() {
+        let toks: Vec<&str> = line
+            .split(|c: char| c == ' ' || c == ';' || c == '(' || c == ')' || c == '\t')
+            .filter(|t| !t.is_empty())
+            .collect();
+        for (i, t) in toks.iter().enumerate() {
+            if *t == "read" {
+                return true;
+            }
+            if *t == "cat" && !toks.get(i + 1).map(|n| n.starts_with("<<")).unwrap_or(false) {
+                return true;
+            }
+        }
+    }
+    false
+}
+
+fn line_start(script: &[u8], o: usize) -> bool {
+    o == 0 || o == script.len() || (o <= script.len() && script[o - 1] == b'\n')
+}
+
+fn offset_of(item: &str) -> Option<usize> {
+    if is_probe_line(item) { item.rsplit_once('@')?.1.parse().ok() } else { None }
+}
+
+fn is_prefix<T: PartialEq>(a: &[T], b: &[T]) -> bool {
+    a.len() <= b.len() && a == &b[..a.len()]
+}
+
+/// The property evaluated on the real code for one case.
+fn oracle(c: &Case, script: &[u8], obs: &Obs) -> String {
+    if obs.stuck {
+        return "FAIL:stuck".into();
+    }
+    let shared = !matches!(c.feed, Feed::Str);
+    // a syntax error ends the shell with status 2
+    if obs.err && obs.status != 2 {
+        return "FAIL:syntax-error-status".into();
+    }
+    // (1) the feed does not matter
+    let reference = observe(script, &c.data, &Feed::File);
+    match c.feed {
+        Feed::Pipe(..) => {
+            if *obs != reference {
+                return format!("FAIL:chunking-changes-run file={}", show(&reference));
+            }
+        }
+        Feed::Str => {
+            if !reads_stdin(script) {
+                let a: Vec<String> = obs.items.iter().map(|i| strip_offset(i)).collect();
+                let b: Vec<String> = reference.items.iter().map(|i| strip_offset(i)).collect();
+                if a != b || obs.status != reference.status || obs.err != reference.err {
+                    return format!("FAIL:string-feed-differs file={}", show(&reference));
+                }
+            }
+        }
+        Feed::File => {}
+    }
+    if shared {
+        // (2) every offset a command sees is the start of a line
+        for it in &obs.items {
+            if let Some(o) = offset_of(it) {
+                if !line_start(script, o) {
+                    return format!("FAIL:offset-inside-line {o}");
+                }
+            }
+        }
+        // (3) `read -r v` / data / `probe R<k> "$v"`: the variable holds exactly the data line
+        let text = String::from_utf8_lossy(script).into_owned();
+        let lines: Vec<&str> = text.split('\n').collect();
+        for w in lines.windows(3) {
+            let (Some(var), Some(p)) = (w[0].strip_prefix("read -r "), w[2].strip_prefix("probe R"))
+            else {
+                continue;
+            };
+            let Some((k, arg)) = p.split_once(' ') else { continue };
+            if arg != format!("\"${var}\"") || var.contains(' ') {
+                continue;
+            }
+            let marker = enc_str(&format!("R{k}"));
+            let want = w[1].trim_matches(|c| c == ' ' || c == '\t');
+            for it in &obs.items {
+                if !is_probe_line(it) {
+                    continue;
+                }
+                let fields = it.split_once(':').unwrap().1.rsplit_once('@').unwrap().0;
+                let fs: Vec<&str> = fields.split(',').collect();
+                if fs.len() == 2 && fs[0] == marker && fs[1] != enc_str(want) {
+                    return format!("FAIL:read-got-other-line R{k}");
+                }
+            }
+        }
+    }
+    // (4) the run of every unit prefix is a prefix of the run (file feed only: one extra run each)
+    if matches!(c.feed, Feed::File) && c.units.len() > 1 {
+        for k in 1..c.units.len() {
+            let prefix: Vec<u8> = c.units[..k].concat();
+            if !prefix.ends_with(b"\n") {
+                continue;
+            }
+            let p = observe(&prefix, &c.data, &Feed::File);
+            if p.stuck || p.err {
+                // the prefix is not a complete script of its own (only in hand-written cases)
+                continue;
+            }
+            if !is_prefix(&p.items, &obs.items) || !is_prefix(&p.echo, &obs.echo) {
+                return format!("FAIL:later-lines-change-earlier-commands k={k} prefix={}", show(&p));
+            }
+        }
+    }
+    "ok".into()
+}
+
+fn run_case(line: &str) -> (String, String) {
+    let Some(c) = parse_case(line) else { return ("bad-case".into(), "-".into()) };
+    let script: Vec<u8> = c.units.concat();
+    let c2 = c.clone();
+    let s2 = script.clone();
+    let mut oracle_text = String::from("-");
+    let obs = guarded(|| {
+        let o = observe(&s2, &c2.data, &c2.feed);
+        let shown = show(&o);
+        oracle_text = guarded(|| oracle(&c2, &s2, &o));
+        shown
+    });
+    if oracle_text.starts_with("PANIC") {
+        oracle_text = format!("FAIL:{oracle_text}");
+    }
+    let _ = &c.feed_text;
+    (obs, oracle_text)
+}
+
+// ---------------------------------------------------------------------------------------------
+// generator
+
+struct Gen {
+    rng: Rng,
+    marker: u32,
+    rmarker: u32,
+    here: u32,
+    aliases: Vec<usize>,
+    portable: bool,
+    thorough: bool,
+}
+
+impl Gen {
+    fn m(&mut self) -> String {
+        self.marker += 1;
+        format!("m{}", self.marker)
+    }
+    fn var(&mut self) -> String {
+        format!("v{}", 1 + self.rng.below(3))
+    }
+    fn word(&mut self) -> String {
+        let pool = ["ab", "c", "x1", "foo", "b-r", "z.z", "Q", "7"];
+        (*self.rng.pick(&pool)).to_string()
+    }
+    fn data_line(&mut self) -> String {
+        let n = 1 + self.rng.below(3);
+        let ws: Vec<String> = (0..n).map(|_| self.word()).collect();
+        ws.join(" ")
+    }
+    /// a simple command that does not touch standard input
+    fn simple(&mut self) -> String {
+        match self.rng.below(12) {
+            0 | 1 | 2 => format!("probe {}", self.m()),
+            3 => format!("probe {} $?", self.m()),
+            4 => format!("st {}", self.rng.below(4)),
+            5 => ":".into(),
+            6 => format!("probe {} \"${}\"", self.m(), self.var()),
+            7 => format!("probe {} ${}", self.m(), self.var()),
+            8 => format!("a{}", 1 + self.rng.below(3)),
+            9 => format!("probe {} '{} {}'", self.m(), self.word(), self.word()),
+            10 => format!("probe {} \\{} \"{}\"", self.m(), self.word(), self.word()),
+            _ => format!("probe {} {}", self.m(), self.word()),
+        }
+    }
+    fn sep(&mut self) -> &'static str {
+        *self.rng.pick(&["; ", ";", " ; ", " && ", " || ", "; "])
+    }
+    fn line(&mut self) -> String {
+        let n = 1 + self.rng.below(3);
+        let mut s = String::new();
+        if self.rng.chance(1, 8) {
+            s.push_str(*self.rng.pick(&[" ", "\t", "  "]));
+        }
+        for i in 0..n {
+            if i > 0 {
+                s.push_str(self.sep());
+            }
+            s.push_str(&self.simple());
+        }
+        match self.rng.below(10) {
+            0 => s.push_str(" # trailing; comment"),
+            1 => s.push(';'),
+            2 => s.push(' '),
+            _ => {}
+        }
+        s
+    }
+    /// a multi-line compound command built from lines without standard-input readers
+    fn compound(&mut self, depth: u32) -> String {
+        let body = |g: &mut Gen| -> String {
+            let n = 1 + g.rng.below(2);
+            let mut v = vec![];
+            for _ in 0..n {
+                if depth < 2 && g.rng.chance(1, 4) {
+                    v.push(g.compound(depth + 1));
+                } else {
+                    v.push(g.line());
+                }
+            }
+            v.join("\n")
+        };
+        match self.rng.below(9) {
+            0 | 1 => {
+                let c = format!("st {}", self.rng.below(2));
+                let mut s = format!("if {c}; then\n{}\n", body(self));
+                if self.rng.chance(1, 3) {
+                    s.push_str(&format!("elif st {}\nthen {}\n", self.rng.below(2), self.line()));
+                }
+                if self.rng.chance(1, 2) {
+                    s.push_str(&format!("else\n{}\n", body(self)));
+                }
+                s.push_str("fi");
+                s
+            }
+            2 => format!("while st 1\ndo\n{}\ndone", body(self)),
+            3 => format!("until st 0; do {}; done", self.simple()),
+            4 => format!("{{\n{}\n}}", body(self)),
+            5 => format!("(\n{}\n)", body(self)),
+            6 => format!("( {}\n{} )", self.line(), self.simple()),
+            7 => format!("st {} &&\n{}", self.rng.below(2), self.simple()),
+            _ => format!("if st 0\nthen {}; fi; {}", self.simple(), self.simple()),
+        }
+    }
+    fn heredoc(&mut self) -> String {
+        self.here += 1;
+        let d = format!("E{}", self.here);
+        let n = self.rng.below(3);
+        let mut body = String::new();
+        for _ in 0..n {
+            body.push_str(&format!("h {}\n", self.data_line()));
+        }
+        match self.rng.below(6) {
+            0 => format!("cat <<{d}; probe {}\n{body}{d}", self.m()),
+            1 => {
+                self.here += 1;
+                let d2 = format!("E{}", self.here);
+                format!("cat <<{d}; cat << {d2}\n{body}{d}\nh second\n{d2}")
+            }
+            2 => format!("if st 0; then\ncat <<{d}\n{body}{d}\nprobe {}\nfi", self.m()),
+            3 => {
+                // a here-document and then a `read` on the same line: the data follows the contents
+                let v = self.var();
+                let dl = self.data_line();
+                format!("cat <<{d}; read {v}\n{body}{d}\n{dl}\nprobe {} \"${v}\"", self.m())
+            }
+            4 => format!("{{ cat <<{d}\n{body}{d}\n}}"),
+            _ => format!("cat <<{d}\n{body}{d}"),
+        }
+    }
+    fn read_unit(&mut self) -> String {
+        let v = self.var();
+        match self.rng.below(11) {
+            0 | 1 | 2 => {
+                self.rmarker += 1;
+                let pad = *self.rng.pick(&["", "", " ", "  "]);
+                format!("read -r {v}\n{pad}{}\nprobe R{} \"${v}\"", self.data_line(), self.rmarker)
+            }
+            3 => {
+                let w = self.var();
+                format!("read {v} {w}\n{}\nprobe {} \"${v}\" \"${w}\"", self.data_line(), self.m())
+            }
+            4 => format!("read {v}; probe {} ${v}\n{}", self.m(), self.data_line()),
+            5 => format!(
+                "read {v}\n{}\\\n{}\nprobe {} \"${v}\"",
+                self.word(),
+                self.data_line(),
+                self.m()
+            ),
+            6 => format!(
+                "read -r {v}\n{}\\\nprobe {} \"${v}\"",
+                self.word(),
+                self.m()
+            ),
+            7 => format!(
+                "if st 0; then\nread {v}\nprobe {}\nfi\n{}\nprobe {} \"${v}\"",
+                self.m(),
+                self.data_line(),
+                self.m()
+            ),
+            8 => format!(
+                "(read {v}; probe {} \"${v}\")\n{}\nprobe {} \"[${v}]\"",
+                self.m(),
+                self.data_line(),
+                self.m()
+            ),
+            9 => {
+                let w = self.var();
+                format!(
+                    "{{ read {v}; read {w}; }}\n{}\n{}\nprobe {} \"${v}\" \"${w}\"",
+                    self.data_line(),
+                    self.data_line(),
+                    self.m()
+                )
+            }
+            _ => format!("st 1 && read {v}\nprobe {} not-data", self.m()),
+        }
+    }
+    fn alias_unit(&mut self) -> String {
+        let k = 1 + self.rng.below(3);
+        match self.rng.below(7) {
+            0 | 1 => {
+                if !self.aliases.contains(&k) {
+                    self.aliases.push(k);
+                }
+                format!("alias a{k}='probe A{}'", self.marker + 100)
+            }
+            2 => {
+                if !self.aliases.contains(&k) {
+                    self.aliases.push(k);
+                }
+                // defined and used on the same line: not yet an alias when the line was parsed
+                format!("alias a{k}='st {}'; a{k}; probe {} $?", 3 + self.rng.below(3), self.m())
+            }
+            3 => {
+                if let Some(pos) = self.aliases.iter().position(|&x| x == k) {
+                    self.aliases.remove(pos);
+                    format!("unalias a{k}")
+                } else {
+                    format!("a{k}")
+                }
+            }
+            4 => {
+                if !self.aliases.contains(&k) {
+                    self.aliases.push(k);
+                }
+                format!("if st 0; then\nalias a{k}='probe inner'\na{k}\nfi\na{k}")
+            }
+            5 => {
+                // an alias whose value is another alias name
+                let j = 1 + (k % 3);
+                if !self.aliases.contains(&k) {
+                    self.aliases.push(k);
+                }
+                format!("alias a{k}='a{j} '\na{k}")
+            }
+            _ => format!("a{k}; a{}", 1 + self.rng.below(3)),
+        }
+    }
+    fn option_unit(&mut self) -> String {
+        match self.rng.below(8) {
+            0 | 1 => "set -v".into(),
+            2 => "set +v".into(),
+            3 => "set -o verbose".into(),
+            4 => {
+                self.portable = true;
+                format!("set -o portable; ((st 0); probe {})", self.m())
+            }
+            5 => {
+                self.portable = false;
+                "set +o portable".into()
+            }
+            6 => {
+                if self.portable && !self.rng.chance(1, 4) {
+                    format!("( (st 0); probe {})", self.m())
+                } else {
+                    format!("((st 0); probe {})", self.m())
+                }
+            }
+            _ => format!("set -v; probe {}", self.m()),
+        }
+    }
+    fn quoted_unit(&mut self) -> String {
+        match self.rng.below(5) {
+            0 => format!("probe {} \"{}\n{}\"", self.m(), self.word(), self.word()),
+            1 => format!("probe {} '{}\n\n{}' {}", self.m(), self.word(), self.word(), self.word()),
+            2 => format!("probe {} {}\\\n{} {}", self.m(), self.word(), self.word(), self.word()),
+            3 => format!("probe {} \"{}\\\n{}\"", self.m(), self.word(), self.word()),
+            _ => format!("probe \\\n{}", self.m()),
+        }
+    }
+    fn blank_unit(&mut self) -> String {
+        (*self.rng.pick(&["", "# a comment line", "   ", "\t# fi"])).to_string()
+    }
+    fn terminal_unit(&mut self) -> String {
+        let n = self.rng.below(4);
+        let mut rest = String::new();
+        for _ in 0..n {
+            rest.push_str(&format!("\n{}", self.data_line()));
+        }
+        let v = self.var();
+        match self.rng.below(4) {
+            0 => format!("while read {v}; do probe {} ${v}; done{rest}", self.m()),
+            1 => format!("while read -r {v}\ndo\nprobe {} \"${v}\"\ndone{rest}\nprobe tail", self.m()),
+            2 => format!("cat{rest}\nprobe {} swallowed", self.m()),
+            _ => format!(
+                "read {v}; read {v}; probe {} \"${v}\"\n{}\n{}",
+                self.m(),
+                self.data_line(),
+                self.data_line()
+            ),
+        }
+    }
+    fn error_unit(&mut self) -> String {
+        let m = self.m();
+        let pool: Vec<String> = vec![
+            "fi".into(),
+            "done".into(),
+            ")".into(),
+            "}".into(),
+            "then".into(),
+            format!("probe {m}; ;"),
+            format!("probe {m} )"),
+            format!("&& probe {m}"),
+            ";;".into(),
+            format!("probe {m} ;;"),
+            format!("if st 0; then\nprobe {m}"),
+            format!("probe {m} 'unclosed"),
+            format!("( probe {m}"),
+            format!("{{ probe {m}"),
+            "if st 0; fi".into(),
+            "while st 1; done".into(),
+            "if; then :; fi".into(),
+            "( )".into(),
+            format!("if st 0; then\nprobe {m}\n)\nfi"),
+            format!("while st 1; do\nprobe {m}\nfi\ndone"),
+            format!("probe {m}; if st 0; then probe {m}; else fi"),
+            format!("cat <<EOT\nh never closed\nprobe {m}"),
+            format!("probe {m} \"open\nstill open"),
+            format!("{{ probe {m}\n)"),
+            format!("probe {m} | |"),
+        ];
+        pool[self.rng.below(pool.len())].clone()
+    }
+    fn unit(&mut self) -> String {
+        match self.rng.below(20) {
+            0..=3 => self.line(),
+            4..=7 => self.read_unit(),
+            8 | 9 => self.alias_unit(),
+            10 | 11 => self.option_unit(),
+            12..=14 => self.compound(0),
+            15 | 16 => self.heredoc(),
+            17 => self.quoted_unit(),
+            18 => self.blank_unit(),
+            _ => self.line(),
+        }
+    }
+    fn script(&mut self) -> Vec<Vec<u8>> {
+        let n = 2 + self.rng.below(if self.thorough { 8 } else { 6 });
+        let mut units: Vec<String> = (0..n).map(|_| self.unit()).collect();
+        if self.rng.chance(2, 5) {
+            // a syntax error planted at a later line
+            let at = 1 + self.rng.below(units.len());
+            let e = self.error_unit();
+            units.insert(at.min(units.len()), e);
+        } else if self.rng.chance(1, 4) {
+            let t = self.terminal_unit();
+            units.push(t);
+        }
+        let last = units.len() - 1;
+        let drop_nl = self.rng.chance(1, 6);
+        units
+            .iter()
+            .enumerate()
+            .map(|(i, u)| {
+                let mut b = u.as_bytes().to_vec();
+                if !(i == last && drop_nl && !u.is_empty()) {
+                    b.push(b'\n');
+                }
+                b
+            })
+            .collect()
+    }
+}
+
+fn feeds_for(rng: &mut Rng, len: usize, thorough: bool) -> Vec<String> {
+    let mut v = vec!["file".to_string(), "str".to_string()];
+    v.push(format!("pipe:0:{}", len.max(1)));
+    v.push("pipe:1:1".to_string());
+    let a = 1 + rng.below(9);
+    let b = 1 + rng.below(17);
+    v.push(format!("pipe:{}:{a},{b}", rng.below(3)));
+    if thorough {
+        let c = 1 + rng.below(40);
+        v.push(format!("pipe:1:{c}"));
+        v.push(format!("pipe:2:{},{},{}", 1 + rng.below(5), 1 + rng.below(5), 1 + rng.below(30)));
+    }
+    v
+}
+
+/// every way of cutting `n` bytes into chunks is a subset of the n-1 inner positions; for small
+/// scripts the thorough tier enumerates them all (as explicit size lists)
+fn all_chunkings(n: usize) -> Vec<Vec<usize>> {
+    let mut out = vec![];
+    if n == 0 || n > 13 {
+        return out;
+    }
+    for mask in 0u32..(1 << (n - 1)) {
+        let mut sizes = vec![];
+        let mut cur = 1;
+        for i in 0..n - 1 {
+            if mask & (1 << i) != 0 {
+                sizes.push(cur);
+                cur = 1;
+            } else {
+                cur += 1;
+            }
+        }
+        sizes.push(cur);
+        out.push(sizes);
+    }
+    out
+}
+
 fn main() {
+    quiet_panics();
     let args: Vec<String> = std::env::args().collect();
     if args.get(1).map(|s| s.as_str()) == Some("--run") {
-        let feed = match args[2].as_str() {
-            "str" => Feed::Str,
-            "file" => Feed::File,
-            p => {
-                let v: Vec<usize> = p.split(',').map(|x| x.parse().unwrap()).collect();
-                Feed::Pipe(v[1..].to_vec(), v[0])
-            }
-        };
-        let script = args[3].replace("\\n", "\n");
-        let data = args.get(4).map(|s| s.replace("\\n", "\n")).unwrap_or_default();
+        let feed = parse_feed(&args[2]).expect("feed");
+        let script = args[3].clone();
+        let data = args.get(4).cloned().unwrap_or_default();
         let o = run_feed(script.as_bytes(), data.as_bytes(), &feed);
-        println!("--stdout\n{}--stderr\n{}--exit {} stuck {}", o.stdout_str(), o.stderr_str(), o.exit_status, o.stuck);
+        println!(
+            "--stdout\n{}--stderr\n{}--exit {} stuck {}",
+            o.stdout_str(),
+            o.stderr_str(),
+            o.exit_status,
+            o.stuck
+        );
+        return;
+    }
+    let o = Opts::from_args();
+    if o.extra.first().map(|s| s.as_str()) == Some("--show") {
+        let (fixed, _) = o.fixed_cases();
+        for c in fixed {
+            if let Some(c) = parse_case(&c) {
+                println!("--- {} data={:?}", c.feed_text, String::from_utf8_lossy(&c.data));
+                for u in &c.units {
+                    print!("{}", String::from_utf8_lossy(u));
+                    println!("~");
+                }
+            }
+        }
+        return;
+    }
+    let (fixed, only) = o.fixed_cases();
+    for c in &fixed {
+        let (obs, orc) = run_case(c);
+        emit(c, &obs, &orc);
+    }
+    if only {
+        return;
+    }
+    let mut index = 0usize;
+    let mut emit_case = |case: String| {
+        let mine = index % o.shard.1 == o.shard.0;
+        index += 1;
+        if mine {
+            let (obs, orc) = run_case(&case);
+            emit(&case, &obs, &orc);
+        }
+    };
+    let data = b"D1\nD2 x\nD3\n".to_vec();
+    // small scripts under every chunking (thorough) / a sample of them (quick)
+    let small: [&str; 8] = [
+        "read v1\nab\nprobe $v1\n",
+        "probe a\nfi\n",
+        "set -v\n: 'a\nb'\n",
+        "cat <<E\nx\nE\n",
+        "if :\nthen :\nfi\n",
+        "read v1\na\\\nb\n",
+        "a1 \\\n\nalias \\\n",
+        ": \"\n\";:\n",
+    ];
+    for s in small {
+        let b = s.as_bytes();
+        let all = all_chunkings(b.len().min(if o.thorough() { 13 } else { 7 }));
+        let step = if o.thorough() { 1 } else { 5 };
+        for (i, sizes) in all.iter().enumerate() {
+            if i % step != 0 {
+                continue;
+            }
+            // the listed sizes cover a prefix; the remainder arrives as one last chunk
+            let covered: usize = sizes.iter().sum();
+            let mut sz: Vec<String> = sizes.iter().map(|n| n.to_string()).collect();
+            if covered < b.len() {
+                sz.push((b.len() - covered).to_string());
+            }
+            // pad the cyclic list so that it is used at most once
+            let feed = format!("pipe:{}:{}", i % 2, sz.join(","));
+            emit_case(case_text(&feed, &data, &[b.to_vec()]));
+        }
+    }
+    let n = if o.thorough() { 12_000 } else { 450 };
+    let mut rng = Rng::new(o.seed ^ 0xC18);
+    for _ in 0..n {
+        let s = rng.next();
+        let mut g = Gen {
+            rng: Rng::new(s),
+            marker: 0,
+            rmarker: 0,
+            here: 0,
+            aliases: vec![],
+            portable: false,
+            thorough: o.thorough(),
+        };
+        let units = g.script();
+        let len: usize = units.iter().map(|u| u.len()).sum();
+        for feed in feeds_for(&mut g.rng, len, o.thorough()) {
+            emit_case(case_text(&feed, &data, &units));
+        }
     }
 }
